@@ -8,6 +8,7 @@ class C20(TieCheck):
     pid = "C20"
     area = "C20"
     props = "Props_C20.v"
+    gentie = "C20"
     harness = "c20"
     extra_trust = [
         "tie A: harness/cmd/c20gen translates func level (logger.go) into coq/C20/GenFuns.v on every run (tiny Go subset: tagless switch over integer comparisons returning slog.Level constants; anything else is refused)",
